@@ -341,12 +341,20 @@ fn forward_transformed(idx: u64, rng: &mut Rng, mon: &mut Mon) {
     let fr = if rng.bool(0.7) { Fr { r: axis_angle(unit(rng), rng.range(-0.3, 0.3)), p: [rng.range(-0.1, 0.1), rng.range(-0.1, 0.1), rng.range(-0.1, 0.1)] } } else { random_fr(rng, 0.5) };
     let frame = Frame { robot: kin.clone(), frame: fr_to_iso(&fr) };
     let q = joints_uniform(rng, PI);
-    let prev = if rng.bool(0.5) { q } else { joints_uniform(rng, 2.0 * PI) };
+    // previous: q itself, anything, or the CONSTRAINT_CENTERED sentinel (without limits: closeness to zeros)
+    let pk = rng.usize(20);
+    let sentinel = pk >= 17;
+    let prev = if sentinel { rs_opw_kinematics::kinematic_traits::CONSTRAINT_CENTERED } else if pk < 9 { q } else { joints_uniform(rng, 2.0 * PI) };
     let (sols, pose) = frame.forward_transformed(&q, &prev);
+    let prev_given = prev;
+    let prev = if sentinel { [0.0; 6] } else { prev };
+    if sentinel {
+        mon.count("forward_transformed.sentinel_previous");
+    }
     let want = fr.mul(&fk(&rp, &q));
     let got = iso_to_fr(&pose);
     let reach = rp.reach() + norm(fr.p);
-    let detail = |what: &str, extra: serde_json::Value| json!({"robot": robot_json(&robot), "frame": {"r": fr.r, "p": fr.p}, "q": jf(&q), "prev": jf(&prev), "clause": what, "extra": extra});
+    let detail = |what: &str, extra: serde_json::Value| json!({"robot": robot_json(&robot), "frame": {"r": fr.r, "p": fr.p}, "q": jf(&q), "prev": jf(&prev_given), "clause": what, "extra": extra});
     if !(pos_dist(&got, &want) <= 1e-11 * (1.0 + reach) && rot_angle(&got.r, &want.r) <= 1e-11) {
         mon.violation("forward-transformed:pose", "returned pose is not frame * FK(q)", detail("pose", json!({"dp": pos_dist(&got, &want)})));
     } else {
